@@ -397,7 +397,9 @@ fn scenario_oplog(sc: &str) -> Result<Violations, String> {
     for (n, c) in cuts.iter().enumerate() {
         if !reuse {
             // strictly increasing creation times: a file whose creation time is not later than its predecessor's is written again after a pause
-            let path = format!("{}/oplog/oplog-nun-{}.op", dir, 1000 + n);
+            // the number in a rotated file's name is the local clock at the roll-over; the records inside carry the ids the PRIMARY of that time handed out, which may well
+            // be larger (clock skew between nodes): the names here are smaller than every record time, and nothing may depend on them
+            let path = format!("{}/oplog/oplog-nun-{}.op", dir, n);
             let mut tries = 0;
             loop {
                 std::fs::write(&path, &bytes[start * 25..c * 25]).map_err(|e| e.to_string())?;
@@ -418,7 +420,7 @@ fn scenario_oplog(sc: &str) -> Result<Violations, String> {
     for (i, t) in times.iter().enumerate() {
         let (db, key, op) = rec(i);
         let k = format!("{}_{}", db, key);
-        if *t > since { chk(&mut v, "C12.after", r.contains_key(&k)); }
+        if *t > since { chk(&mut v, "C12.after", r.contains_key(&k)); chk(&mut v, "C05.catch-up-misses-nothing", r.contains_key(&k)); chk(&mut v, "C12.all-files-after", r.contains_key(&k)); }
         if *t == since { chk(&mut v, "C12.at", r.contains_key(&k)); }
         let last = !(i + 1..times.len()).any(|j| rec(j).0 == db && rec(j).1 == key);
         if *t >= since && last {
@@ -489,6 +491,9 @@ fn mk_world(variant: u8) -> World {
         remove_key(&"gone".to_string(), db);
     }
     run_cmd(&w, &mut admin, &mut arx, if variant == 0 { "set $$secret S3CR3T-A" } else { "set $$secret S3CR3T-B-longer" });
+    // a user nobody in the scenarios logs in as: its token and permission list are $$ keys no session may learn anything about
+    run_cmd(&w, &mut admin, &mut arx, "create-user ghost gt");
+    run_cmd(&w, &mut admin, &mut arx, if variant == 0 { "set-permissions ghost rwix *" } else { "set-permissions ghost r nothing" });
     if variant == 1 { run_cmd(&w, &mut admin, &mut arx, "set $$extra XTRA"); }
     std::mem::forget(arx);
     w
@@ -535,7 +540,7 @@ const DATA_CMDS: [&str; 22] = ["get secret", "get-safe secret", "get public1", "
 const ADMIN_CMDS: [&str; 9] = ["create-db x xt", "create-user eve et", "set-permissions usr rwix *", "snapshot false d", "cluster-state", "metrics-state",
     "replicate d secret -1 replaced", "replicate-remove d secret", "debug list-dbs"];
 // wrong credentials: unrelated text, the stored secret with something appended / prepended, a proper prefix of it, another case, the empty text
-const USE_FAIL: [&str; 12] = ["use-db d wrong", "use-db d usr wrong", "use-db nosuch tok", "use-db d nolist wrong",
+const USE_FAIL: [&str; 14] = ["use-db d wrong", "use-db d usr wrong", "use-db nosuch tok", "use-db d nolist wrong", "use-db d ghost wrong", "use-db d ghost tok",
     "use-db d tok2", "use-db d to", "use-db d xtok", "use-db d TOK", "use-db d usr ut-more", "use-db d usr u", "use-db d usr UT", "use-db d nolist ntnt"];
 const AUTH_FAIL: [&str; 6] = ["auth u pp", "auth u p2", "auth u P", "auth uu p", "auth u wrong", "auth U p"];
 
@@ -612,6 +617,7 @@ fn scenario_session(sc: &str) -> Result<Violations, String> {
             // ---- C09: a failed use-db leaves the previous selection untouched
             if USE_FAIL.contains(cmd) {
                 chk(&mut v, "C09.failed-use-db", is_err(&r) && (c.selected_db_name(), c.selected_db_user_name()) == sel_before);
+                for l in ["C09.failed-use-db-keeps-the-session", "C08.failed-login-changes-nothing"] { chk(&mut v, l, (c.selected_db_name(), c.selected_db_user_name()) == sel_before); }
                 for l in ["C09.db-token", "C09.user-token", "C09.use-db-credentials"] { chk(&mut v, l, is_err(&r)); }
             }
             // ---- C09: only the exact administrator name and password authenticate a session
@@ -843,10 +849,18 @@ fn scenario_logthread(sc: &str) -> Result<Violations, String> {
         let names: Option<Vec<String>> = dbs.get_pending_opp_copy(*t).map(|m| { let mut n: Vec<String> = m.replications.lock().unwrap().keys().cloned().collect(); n.sort(); n });
         let want = vec!["s1:1".to_string(), "s2:1".to_string()];
         for l in ["C15.pending-only-for-nodes-sent-to", "C15.not-pending-for-self", "C15.register-pending"] { chk(&mut v, l, names.as_ref() == Some(&want)); }
-        dbs.acknowledge_pending_opp(*t, &"s1:1".to_string());
+        // the acknowledgements arrive as `ack <id> <node>` lines on an authenticated peer link; between the two this node is demoted (it was told who the primary is):
+        // what it registered while it was primary / starting up is settled all the same
+        let w = World { dbs: dbs.clone() };
+        let (mut peer, mut peerrx) = Client::new_empty_and_receiver();
+        peer.auth.swap(true, std::sync::atomic::Ordering::Relaxed);
+        run_cmd(&w, &mut peer, &mut peerrx, &format!("ack {} s1:1", t));
         chk(&mut v, "C15.pending-iff-owing", dbs.get_pending_opp_copy(*t).is_some());
-        dbs.acknowledge_pending_opp(*t, &"s2:1".to_string());
-        for l in ["C15.returns-to-zero", "C15.pending-iff-owing", "C15.not-pending-for-self"] { chk(&mut v, l, dbs.get_pending_opp_copy(*t).is_none()); }
+        let role_before = dbs.get_role();
+        dbs.node_state.swap(ClusterRole::Secoundary as usize, std::sync::atomic::Ordering::Relaxed);
+        run_cmd(&w, &mut peer, &mut peerrx, &format!("ack {} s2:1", t));
+        dbs.node_state.swap(role_before as usize, std::sync::atomic::Ordering::Relaxed);
+        for l in ["C15.returns-to-zero", "C15.pending-iff-owing", "C15.not-pending-for-self", "C15.ack-settles-whatever-the-role"] { chk(&mut v, l, dbs.get_pending_opp_copy(*t).is_none()); }
     }
     Oplog::clean_op_log_metadata_files();
     Ok(v)
@@ -2015,7 +2029,7 @@ fn families() -> Vec<(&'static str, fn() -> Vec<String>, fn(&str) -> Result<Viol
 fn family_props(fam: &str) -> &'static [&'static str] {
     match fam {
         "store" => &["C01", "C02", "C03", "C08"], "strategy" => &["C02", "C13", "C19"], "pending" => &["C15"], "ids" => &["C16"], "keymap" => &["C16"],
-        "oplog" => &["C12"], "session" => &["C01", "C08", "C09"], "permchange" => &["C09"], "arbiter" => &["C06", "C13"], "watch" => &["C03"], "lines" => &[], "flood" => &[],
+        "oplog" => &["C05", "C12"], "session" => &["C01", "C08", "C09"], "permchange" => &["C09"], "arbiter" => &["C06", "C13"], "watch" => &["C03"], "lines" => &[], "flood" => &[],
         "connections" => &["C17"], "snapshot" => &["C01", "C06"], "resync" => &["C05"], "election" => &["C07"], "http" => &["C20"], "httpserver" => &["C08", "C09", "C17", "C20"], "tcpserver" => &["C03", "C17"], "race" => &["C01", "C02"], "oplogdisk" => &["C16"], "wsserver" => &["C03", "C17", "C20"],
         "values" => &["C01", "C03"], "forward" => &["C08", "C09"], "resub" => &["C03"], "logthread" => &["C05", "C12", "C15"], "logroll" => &["C12"], "linktag" => &["C07"], "replica" => &["C02", "C05", "C19"],
         _ => &[],
